@@ -163,3 +163,416 @@ func ruleFullRange(prog *Program, rep *Report, floor int, rels ...string) {
 	rep.Rules = append(rep.Rules, "P-fullrange: an index loop that walks a sized value downwards from its last index (i := len(x)-1 / x.NumField()-1 / x.Len()-1; ...; i--) and uses i as an index includes index 0 in its condition; a loop over the fields of a struct type that counts upwards starts at 0 ("+strings.Join(rels, ", ")+")")
 	runSynRule(prog, rep, "P-fullrange", rels, matchFullRange, fixtureFullRange, 1, floor)
 }
+
+// ---------------------------------------------------------------- K-numfamily
+
+var signedFamily = []string{"int", "int8", "int16", "int32", "int64"}
+var unsignedFamily = []string{"uint", "uint8", "uint16", "uint32", "uint64"}
+
+// matchNumFamily: a case clause - of a type switch, or of a switch over reflect kinds - that lists three or
+// more of the five signed (or of the five unsigned) integer types handles "the integers"; leaving one width out
+// sends values of that width to another clause (usually the default), so one Go integer type is treated unlike
+// its siblings.
+func matchNumFamily(files []*ast.File, info *types.Info) (sites []synSite, examined int) {
+	for _, f := range files {
+		ast.Inspect(f, func(n ast.Node) bool {
+			cc, ok := n.(*ast.CaseClause)
+			if !ok || len(cc.List) < 3 {
+				return true
+			}
+			have := map[string]bool{}
+			for _, e := range cc.List {
+				e = ast.Unparen(e)
+				if tv, ok := info.Types[e]; ok && tv.IsType() {
+					if b, ok := tv.Type.(*types.Basic); ok {
+						have[b.Name()] = true
+					}
+					continue
+				}
+				// reflect.Int8 and friends (constants of type reflect.Kind)
+				if sel, ok := e.(*ast.SelectorExpr); ok {
+					if c, ok := info.Uses[sel.Sel].(*types.Const); ok && c.Pkg() != nil && c.Pkg().Path() == "reflect" {
+						have[strings.ToLower(c.Name())] = true
+					}
+				}
+			}
+			for _, fam := range [][]string{signedFamily, unsignedFamily} {
+				cnt := 0
+				var missing []string
+				for _, t := range fam {
+					if have[t] {
+						cnt++
+					} else {
+						missing = append(missing, t)
+					}
+				}
+				if cnt < 3 {
+					continue
+				}
+				examined++
+				if len(missing) > 0 {
+					name := enclosingFuncName(f, cc.Pos())
+					sites = append(sites, synSite{pos: cc.Pos(), file: f, key: fmt.Sprintf("%s:case-misses:%s", name, strings.Join(missing, ",")),
+						msg: fmt.Sprintf("%s: a case clause lists %d of the five %s-family integer types and leaves out %s: values of that width are handled by another clause", name, cnt, fam[0], strings.Join(missing, ", "))})
+				}
+			}
+			return true
+		})
+	}
+	return
+}
+
+const fixtureNumFamily = `package fixture
+
+import "reflect"
+
+func isInt(v any) bool {
+	switch v.(type) {
+	case int, int8, int16, int64, uint, uint8, uint16, uint32, uint64:
+		return true
+	}
+	return false
+}
+
+func kindInt(k reflect.Kind) bool {
+	switch k {
+	case reflect.Int, reflect.Int8, reflect.Int16, reflect.Int32, reflect.Int64:
+		return true
+	case reflect.Uint, reflect.Uint8:
+		return true
+	}
+	return false
+}
+`
+
+func ruleNumFamily(prog *Program, rep *Report, floor int, rels ...string) {
+	rep.Rules = append(rep.Rules, "K-numfamily: a case clause (type switch, or switch over reflect kinds) that lists at least three of the five signed integer types, or of the five unsigned ones, lists all five: no integer width is treated unlike its siblings ("+strings.Join(rels, ", ")+")")
+	runSynRule(prog, rep, "K-numfamily", rels, matchNumFamily, fixtureNumFamily, 1, floor)
+}
+
+// ---------------------------------------------------------------- D-bufalias
+
+// ruleBufAlias: the values a parser or tokenizer hands out (strings on the build stack, arguments of handler
+// callbacks) must be copies of the input bytes: the read buffer of the reader entries is refilled for every
+// chunk and the []byte entries parse the caller's slice. A copying conversion string(buf[a:b]) is the only way
+// the front-ends make strings today; the structural necessary condition checked here is that no method of a
+// front-end type, and no function of the same package such a method reaches by static calls, uses package
+// unsafe at all (a zero-copy string or slice header is the only way to alias the buffer).
+func ruleBufAlias(prog *Program, rep *Report, specs ...feSpec) {
+	rep.Rules = append(rep.Rules, "D-bufalias: no method of a parsing front-end type (oj.Parser, oj.Validator, oj.Tokenizer, gen.Parser, sen.Parser, sen.Tokenizer), and no function of the same package reachable from one by static calls, uses package unsafe: every string handed out is a copy of the input bytes, not a view of the read buffer")
+	// positive control
+	ff, finfo, _, err := loadFixture(fixtureBufAlias)
+	if err != nil {
+		rep.Errorf("D-bufalias: fixture does not type-check: %v", err)
+		return
+	}
+	if n := len(unsafeUses(ff[0], finfo, nil)); n != 1 {
+		rep.Errorf("D-bufalias: the positive-control fixture produced %d matches (want 1)", n)
+		return
+	}
+	rep.Discharge("D-bufalias", "positive-control", "checker/rules_r7.go", "fixture matched once")
+	for _, sp := range specs {
+		pk := prog.Pkg(sp.rel)
+		if pk == nil {
+			rep.Errorf("D-bufalias: package %s not loaded", sp.rel)
+			continue
+		}
+		info := pk.TypesInfo
+		decls := map[types.Object]*ast.FuncDecl{}
+		files := map[*ast.FuncDecl]*ast.File{}
+		for _, f := range pk.Syntax {
+			for _, d := range f.Decls {
+				if fd, ok := d.(*ast.FuncDecl); ok && fd.Body != nil {
+					decls[info.Defs[fd.Name]] = fd
+					files[fd] = f
+				}
+			}
+		}
+		// roots: every method of the front-end type
+		var work []*ast.FuncDecl
+		seen := map[*ast.FuncDecl]bool{}
+		for _, fd := range decls {
+			if fd.Recv == nil || len(fd.Recv.List) != 1 {
+				continue
+			}
+			if strings.TrimPrefix(types.ExprString(fd.Recv.List[0].Type), "*") == sp.typ {
+				work = append(work, fd)
+				seen[fd] = true
+			}
+		}
+		if len(work) < 3 {
+			rep.Errorf("D-bufalias: %s.%s has %d methods (floor 3): anchor did not resolve", sp.rel, sp.typ, len(work))
+			continue
+		}
+		n := 0
+		for len(work) > 0 {
+			fd := work[len(work)-1]
+			work = work[:len(work)-1]
+			n++
+			for _, pos := range unsafeUses(fd, info, nil) {
+				name := enclosingFuncName(files[fd], fd.Pos())
+				rep.Violate(Finding{Rule: "D-bufalias", Key: sp.rel + "." + name + ":unsafe", Pos: prog.Pos(pos),
+					Msg: fmt.Sprintf("%s.%s is part of the %s.%s front-end and uses package unsafe: a string or slice made this way is a view of the input buffer, which the reader entries overwrite with the next chunk", sp.rel, name, sp.rel, sp.typ)})
+			}
+			ast.Inspect(fd.Body, func(nd ast.Node) bool {
+				call, ok := nd.(*ast.CallExpr)
+				if !ok {
+					return true
+				}
+				var callee types.Object
+				switch fn := ast.Unparen(call.Fun).(type) {
+				case *ast.Ident:
+					callee = info.Uses[fn]
+				case *ast.SelectorExpr:
+					callee = info.Uses[fn.Sel]
+				}
+				if cd := decls[callee]; cd != nil && !seen[cd] {
+					seen[cd] = true
+					work = append(work, cd)
+				}
+				return true
+			})
+		}
+		rep.Eval(n)
+		rep.Discharge("D-bufalias", sp.rel+"."+sp.typ, sp.rel, fmt.Sprintf("%d functions of the front-end examined", n))
+	}
+}
+
+// unsafeUses: positions where node uses an identifier of package unsafe.
+func unsafeUses(node ast.Node, info *types.Info, _ any) (out []token.Pos) {
+	ast.Inspect(node, func(n ast.Node) bool {
+		if sel, ok := n.(*ast.SelectorExpr); ok {
+			if id, ok := sel.X.(*ast.Ident); ok {
+				if pn, ok := info.Uses[id].(*types.PkgName); ok && pn.Imported().Path() == "unsafe" {
+					out = append(out, sel.Pos())
+				}
+			}
+		}
+		return true
+	})
+	return
+}
+
+const fixtureBufAlias = `package fixture
+
+import "unsafe"
+
+type P struct{ stack []any }
+
+func (p *P) parse(buf []byte) {
+	sb := buf[1:3]
+	p.stack = append(p.stack, *(*string)(unsafe.Pointer(&sb)))
+	p.stack = append(p.stack, string(buf[1:3]))
+}
+`
+
+// ---------------------------------------------------------------- M-selfrec
+
+// matchSelfRec: functions written as copies of one another that each walk a structure by calling
+// themselves (the three field-plan builders; Alter / Simplify of the generic containers). Inside such a
+// function the recursion has to stay in the same copy: a call of a sibling copy applies the sibling's
+// variant (other key case, in-place instead of copying) to the nested part only.
+//
+//	functions: F and G have identical signatures, both call themselves, and F calls G
+//	methods:   T.M calls x.M' where M' != M is a method with M's signature that x's type also offers
+//	           next to M, and some type's M' calls M' on such a value itself (it is a recursive walk too)
+func matchSelfRec(files []*ast.File, info *types.Info) (sites []synSite, examined int) {
+	type fn struct {
+		fd   *ast.FuncDecl
+		file *ast.File
+		obj  *types.Func
+		self bool
+	}
+	var fns []*fn
+	byObj := map[types.Object]*fn{}
+	for _, f := range files {
+		for _, d := range f.Decls {
+			fd, ok := d.(*ast.FuncDecl)
+			if !ok || fd.Body == nil {
+				continue
+			}
+			o, _ := info.Defs[fd.Name].(*types.Func)
+			if o == nil {
+				continue
+			}
+			x := &fn{fd: fd, file: f, obj: o}
+			fns = append(fns, x)
+			byObj[o] = x
+		}
+	}
+	callee := func(call *ast.CallExpr) *types.Func {
+		switch f := ast.Unparen(call.Fun).(type) {
+		case *ast.Ident:
+			o, _ := info.Uses[f].(*types.Func)
+			return o
+		case *ast.SelectorExpr:
+			o, _ := info.Uses[f.Sel].(*types.Func)
+			return o
+		}
+		return nil
+	}
+	// methods that recurse by name: name -> true when some method of that name calls a method of that name
+	recName := map[string]bool{}
+	for _, x := range fns {
+		ast.Inspect(x.fd.Body, func(n ast.Node) bool {
+			if call, ok := n.(*ast.CallExpr); ok {
+				if c := callee(call); c != nil {
+					if c == x.obj {
+						x.self = true
+					}
+					if x.fd.Recv != nil && c.Name() == x.obj.Name() && c.Type().(*types.Signature).Recv() != nil {
+						recName[c.Name()] = true
+					}
+				}
+			}
+			return true
+		})
+	}
+	sigOf := func(o *types.Func) string {
+		s := o.Type().(*types.Signature)
+		return s.Params().String() + s.Results().String()
+	}
+	for _, x := range fns {
+		if x.fd.Recv == nil {
+			if !x.self {
+				continue
+			}
+			examined++
+			ast.Inspect(x.fd.Body, func(n ast.Node) bool {
+				call, ok := n.(*ast.CallExpr)
+				if !ok {
+					return true
+				}
+				c := callee(call)
+				y := byObj[c]
+				if y == nil || y == x || y.fd.Recv != nil || !y.self || sigOf(y.obj) != sigOf(x.obj) {
+					return true
+				}
+				// a scalar handed to the sibling has no nested part (alter converts the bytes of a []byte through decompose)
+				if len(call.Args) > 0 {
+					if t := info.TypeOf(call.Args[0]); t != nil {
+						if _, basic := t.Underlying().(*types.Basic); basic {
+							return true
+						}
+					}
+				}
+				sites = append(sites, synSite{pos: call.Pos(), file: x.file, key: fmt.Sprintf("%s:recurses-into:%s", x.obj.Name(), y.obj.Name()),
+					msg: fmt.Sprintf("%s and %s are recursive functions of one signature; %s calls %s here, so the nested part is handled by the sibling variant", x.obj.Name(), y.obj.Name(), x.obj.Name(), y.obj.Name())})
+				return true
+			})
+			continue
+		}
+		// methods
+		m := x.obj.Name()
+		if !recName[m] {
+			continue
+		}
+		examined++
+		// a method that calls its own name on members as well chooses between the walks by the member's kind
+		// (pretty's table builders): only a walk that never continues under its own name is a slip
+		callsOwn := false
+		ast.Inspect(x.fd.Body, func(n ast.Node) bool {
+			if call, ok := n.(*ast.CallExpr); ok {
+				if c := callee(call); c != nil && c.Name() == m && c.Type().(*types.Signature).Recv() != nil {
+					callsOwn = true
+				}
+			}
+			return true
+		})
+		if callsOwn {
+			continue
+		}
+		ast.Inspect(x.fd.Body, func(n ast.Node) bool {
+			call, ok := n.(*ast.CallExpr)
+			if !ok {
+				return true
+			}
+			sel, ok := ast.Unparen(call.Fun).(*ast.SelectorExpr)
+			if !ok {
+				return true
+			}
+			c := callee(call)
+			if c == nil || c.Name() == m || !recName[c.Name()] || c.Type().(*types.Signature).Recv() == nil || sigOf(c) != sigOf(x.obj) {
+				return true
+			}
+			// the value called on must offer M as well (then M was the call to make)
+			t := info.TypeOf(sel.X)
+			if t == nil {
+				return true
+			}
+			if o, _, _ := types.LookupFieldOrMethod(t, true, x.obj.Pkg(), m); o == nil {
+				return true
+			}
+			// a call on the receiver itself is delegation (Simplify implemented through another method of the same value), not recursion
+			if id, ok := ast.Unparen(sel.X).(*ast.Ident); ok && x.fd.Recv != nil && len(x.fd.Recv.List) == 1 && len(x.fd.Recv.List[0].Names) == 1 && info.Uses[id] == info.Defs[x.fd.Recv.List[0].Names[0]] {
+				return true
+			}
+			name := enclosingFuncName(x.file, x.fd.Pos())
+			sites = append(sites, synSite{pos: call.Pos(), file: x.file, key: fmt.Sprintf("%s:recurses-into:%s", name, c.Name()),
+				msg: fmt.Sprintf("%s walks its members by calling %s on them although they offer %s too: the nested part is handled by the sibling variant", name, c.Name(), m)})
+			return true
+		})
+	}
+	return
+}
+
+const fixtureSelfRec = `package fixture
+
+type node interface {
+	alter() any
+	simplify() any
+}
+
+type arr []node
+
+func (a arr) alter() any {
+	for _, m := range a {
+		_ = m.alter()
+	}
+	return nil
+}
+
+func (a arr) simplify() any {
+	out := make([]any, 0, len(a))
+	for _, m := range a {
+		out = append(out, m.alter())
+	}
+	return out
+}
+
+type obj map[string]node
+
+func (o obj) alter() any { return nil }
+
+func (o obj) simplify() any {
+	out := map[string]any{}
+	for k, m := range o {
+		out[k] = m.simplify()
+	}
+	return out
+}
+
+func low(v any) any {
+	if a, ok := v.([]any); ok {
+		for i, m := range a {
+			a[i] = low(m)
+		}
+	}
+	return v
+}
+
+func exact(v any) any {
+	if a, ok := v.([]any); ok {
+		for i, m := range a {
+			a[i] = low(m)
+		}
+		return exact(a[0])
+	}
+	return v
+}
+`
+
+func ruleSelfRec(prog *Program, rep *Report, floor int, rels ...string) {
+	rep.Rules = append(rep.Rules, "M-selfrec: among recursive functions of one signature (copies of one walk) none calls another one; a method that belongs to a family of same-signature methods that walk members by calling themselves calls its own name on the members, not a sibling's ("+strings.Join(rels, ", ")+")")
+	runSynRule(prog, rep, "M-selfrec", rels, matchSelfRec, fixtureSelfRec, 2, floor)
+}
